@@ -41,3 +41,161 @@ def write_cases(path, cases):
     with open(path, "w") as f:
         for c in cases:
             f.write("%s %s %s\n" % (c[0], c[1], c[2] or "-"))
+
+
+# ---------------------------------------------------------------------------------------------------------
+# C20: deterministic mutation of every length / count field (positions from the oracle's `lens` op)
+
+import struct, zlib
+
+_CRC32C_TABLE = []
+for _i in range(256):
+    _c = _i
+    for _ in range(8):
+        _c = (_c >> 1) ^ 0x82F63B78 if _c & 1 else _c >> 1
+    _CRC32C_TABLE.append(_c)
+
+
+def crc32c(data):
+    c = 0xFFFFFFFF
+    for b in data:
+        c = _CRC32C_TABLE[(c ^ b) & 0xFF] ^ (c >> 8)
+    return c ^ 0xFFFFFFFF
+
+
+def enc_uv(n):
+    n &= (1 << 64) - 1
+    out = bytearray()
+    while n >= 0x80:
+        out.append((n & 0x7F) | 0x80); n >>= 7
+    out.append(n)
+    return bytes(out)
+
+
+def enc_zv(i):
+    return enc_uv(((i << 1) ^ (i >> 63)) & ((1 << 64) - 1))
+
+
+def dec_uv(b):
+    v, s = 0, 0
+    for x in b:
+        v |= (x & 0x7F) << s; s += 7
+        if not x & 0x80: break
+    return v
+
+
+OVERLONG = b"\xff" * 11
+
+
+def parse_fields(text):
+    """`off:kind:width:encl:crc,…` → list of dicts"""
+    out = []
+    if text in ("-", ""):
+        return out
+    for item in text.split(","):
+        off, kind, width, encl, crc = item.split(":")
+        f = {"off": int(off), "kind": kind, "width": int(width),
+             "encl": [] if encl == "-" else [int(x) for x in encl.split("+")], "crc": None}
+        if crc != "-":
+            k, o, a, b = crc.split("/")
+            f["crc"] = (k, int(o), int(a), int(b))
+        out.append(f)
+    return out
+
+
+def _replace(frame, f, new, fix_crc):
+    off, w = f["off"], f["width"]
+    b = bytearray(frame[:off] + new + frame[off + w:])
+    delta = len(new) - w
+    if delta:
+        for e in f["encl"]:
+            (v,) = struct.unpack(">i", b[e:e + 4])
+            b[e:e + 4] = struct.pack(">i", max(-2 ** 31, min(2 ** 31 - 1, v + delta)))
+    if fix_crc and f["crc"]:
+        k, o, a, e = f["crc"]
+        e += delta
+        data = bytes(b[a:e])
+        c = crc32c(data) if k == "c" else (zlib.crc32(data) & 0xFFFFFFFF)
+        b[o:o + 4] = struct.pack(">I", c)
+    return bytes(b)
+
+
+def _inner(frame, f):
+    """lengths that overrun the innermost enclosing unit (message / batch / record set) but not the outer ones:
+    inner rest + 1, + 8, + 38 (spills into the following message)"""
+    out = []
+    for e in f["encl"][1:]:
+        (v,) = struct.unpack(">i", frame[e:e + 4])
+        inner_rest = e + 4 + v - (f["off"] + f["width"])
+        if inner_rest >= 0:
+            out += [inner_rest + 1, inner_rest + 8, inner_rest + 38, inner_rest]
+    return out
+
+
+def field_mutations(frame, f, thorough=False):
+    """all mutants of one field: list of bytes"""
+    off, w, kind = f["off"], f["width"], f["kind"]
+    rest = len(frame) - (off + w)
+    outs = []
+    if kind in ("i32", "i16"):
+        bits = 32 if kind == "i32" else 16
+        fmt = ">i" if kind == "i32" else ">h"
+        (orig,) = struct.unpack(fmt, frame[off:off + w])
+        lo, hi = -2 ** (bits - 1), 2 ** (bits - 1) - 1
+        vals = [-1, -2, lo, hi, 0, orig + 1, orig - 1, rest + 1, rest, 255, 0x10000 if bits == 32 else 256, 0x1000000 if bits == 32 else 0x1000]
+        vals += _inner(frame, f)
+        if thorough:
+            vals += [-3, lo + 1, hi - 1, rest - 1, 2 * orig + 1, 0x7fff0001 if bits == 32 else 0x7f01]
+        news = []
+        for v in vals:
+            if v == orig or v < lo or v > hi: continue
+            nb = struct.pack(fmt, v)
+            if nb not in news: news.append(nb)
+    else:
+        raw = frame[off:off + w]
+        u = dec_uv(raw)
+        if kind == "uv":
+            orig = u
+            vals = [0, 1, 2, orig + 1, max(orig - 1, 0), rest + 2, rest + 1, 2 ** 31, 2 ** 31 + 1, 2 ** 32, 2 ** 63, 2 ** 64 - 1, 300]
+            enc = enc_uv
+        else:
+            orig = (u >> 1) ^ -(u & 1)
+            vals = [-1, -2, 0, orig + 1, orig - 1, rest + 1, rest, 2 ** 31 - 1, 2 ** 31, 2 ** 62, -2 ** 63, 2 ** 63 - 1, 300, -300]
+            vals += _inner(frame, f)
+            enc = enc_zv
+        news = []
+        for v in vals:
+            if v == orig: continue
+            nb = enc(v)
+            if nb not in news: news.append(nb)
+        news.append(OVERLONG)
+    for nb in news:
+        outs.append(_replace(frame, f, nb, False))
+        if f["crc"]:
+            outs.append(_replace(frame, f, nb, True))
+    return outs
+
+
+def v1_to_v0(frame, fields):
+    """rewrite the magic-1 message sets of a frame as magic-0 ones (no timestamp): returns new frame or None.
+    Only the simple case is handled: every record-set field whose messages are all v1."""
+    b = bytearray(frame)
+    # message size fields are the i32 fields without crc whose encl has two entries [0, rsSizeOff]
+    msgs_ = [f for f in fields if f["kind"] == "i32" and f["crc"] is None and len(f["encl"]) == 2]
+    if not msgs_:
+        return None
+    for f in sorted(msgs_, key=lambda x: -x["off"]):          # from the back so that offsets stay valid
+        so = f["off"]                                          # size field; message: crc(4) magic(1) attr(1) ts(8) …
+        if so + 4 + 6 + 8 > len(b) or b[so + 8] != 1:
+            return None
+        (size,) = struct.unpack(">i", b[so:so + 4])
+        body = bytearray(b[so + 8:so + 4 + size])             # magic … end
+        body[0] = 0
+        del body[2:10]                                         # drop the timestamp
+        crc = zlib.crc32(bytes(body)) & 0xFFFFFFFF
+        new = struct.pack(">i", 4 + len(body)) + struct.pack(">I", crc) + bytes(body)
+        b[so:so + 4 + size] = new
+        for e in f["encl"]:
+            (v,) = struct.unpack(">i", b[e:e + 4])
+            b[e:e + 4] = struct.pack(">i", v - 8)
+    return bytes(b)
